@@ -113,6 +113,12 @@ def crafted_instances():
     out.append(('held_reset_new', {'elems': sl, 'load': ld(c0=5), 'ctrls': [], 'stops': [],
                                    'ops': sched(5, spd0=2, more=[{'op': 'reset'}, {'op': 'set_initial', 'pos': F(0), 'spd': F(2)}, {'op': 'new_solver', 'sid': 2},
                                                                  {'op': 'run', 'sid': 2, 'dt': dt, 'T': dt * 5, 'dt_unit': 'sec', 'T_unit': 'sec'}])}))
+    # duty cycle exactly 0 from the very first instant (dead zone from t = 0), with and without self-locking, then released
+    gearpair = [motor, {'kind': 'SpurGear', 'J': F(1, 10**6), 'teeth': 10, 'rel': {'type': 'joint', 'arg': None}},
+                {'kind': 'SpurGear', 'J': F(1, 10**5), 'teeth': 30, 'rel': {'type': 'gear', 'arg': F(9, 10)}}]
+    out.append(('pwm_zero_from_start', {'elems': gearpair, 'load': ld(c0=F(1, 1000)), 'ctrls': [[const(0, F(7, 200), 0)]], 'stops': [], 'ops': sched(8, ctrl=0)}))
+    out.append(('pwm_zero_from_start_sl', {'elems': sl, 'load': ld(c0=F(1, 1000)), 'ctrls': [[const(0, F(7, 200), 0)]], 'stops': [],
+                                           'ops': sched(8, ctrl=0, more=[{'op': 'reset'}, {'op': 'set_initial', 'pos': F(0), 'spd': F(0)}])}))
     # the same loads on the non-self-locking stage and on a motor without current data: never clamped
     out.append(('free_overload', {'elems': [motor, worm, wheel_free, out_gear], 'load': ld(c0=5), 'ctrls': [[const(F(5, 200), 1, 0)]], 'stops': [], 'ops': sched(8, spd0=-3, ctrl=0)}))
     out.append(('nocurrent_locked', {'elems': [motor_nc, worm, wheel], 'load': ld(c0=5), 'ctrls': [[const(F(3, 200), F(3, 100), 0)]], 'stops': [], 'ops': sched(10, ctrl=0)}))
